@@ -75,7 +75,7 @@ def sample(gen, count, seed):
             continue
         if p is None:
             continue
-        key = p[0] if isinstance(p, tuple) else repr(p)
+        key = repr(p)
         if key in seen:
             continue
         seen.add(key)
@@ -329,3 +329,253 @@ def env_without_routines(env):
     e.num = orig_num
     e.fresh = orig_fresh
     return e
+
+
+# ---------------------------------------------------------------- C03 -------
+def routine_program(size=3, two_routines=True, recursion=False):
+    """Routines, parameters hiding globals, locals, returns at depth, nested and
+    recursive calls.  Every variable of interest is printed before, inside and
+    after the calls so that scope errors become trace differences."""
+    GLOBALS = ['x', 'y', 'g']
+    PARAMSETS = [(), ('x',), ('y',), ('x', 'y'), ('y', 'x'), ('p',), ('p', 'x'), ('x', 'p')]
+
+    def gen(ch):
+        env = Env(ch)
+        stmts = [R.Assign(v, env.num('int')) for v in GLOBALS]
+        routines = {}
+
+        def expr(names):
+            k = ch.choose(4, [2, 3, 2, 1])
+            if k == 0:
+                return env.num('int')
+            if k == 1:
+                return R.Var(ch.pick(names))
+            if k == 2:
+                return R.Bin(ch.pick(['+', '-']), R.Var(ch.pick(names)), env.num('int'))
+            return R.Bin('*', R.Var(ch.pick(names)), N(value=2))
+
+        def call_args(callee, names, allow_nested):
+            args = []
+            for _ in routines[callee][0]:
+                if allow_nested and ch.flag(0.2):
+                    inner = ch.pick([r for r in routines if routines[r][1]] or [None])
+                    if inner is not None:
+                        args.append(R.CallE(inner, call_args(inner, names, False)))
+                        continue
+                args.append(expr(names))
+            return args
+
+        def body(params, budget, self_name=None, callees=()):
+            names = list(params) + GLOBALS
+            locs = []
+            out = []
+            depth_cnt = [0]
+
+            def simple(names_now, in_loop):
+                k = ch.choose(5, [4, 2, 2, 2, 1])
+                if k == 0:
+                    tgt = ch.pick(list(params) + GLOBALS + ['t'])
+                    if tgt == 't' and 't' not in locs:
+                        locs.append('t')
+                    e = expr(names_now)
+                    return R.Assign(tgt, e)
+                if k == 1:
+                    return R.Print(R.Var(ch.pick(names_now)), ln=True)
+                if k == 2 and callees:
+                    c = ch.pick(list(callees))
+                    return R.Call(c, call_args(c, names_now, True), bracket=ch.flag(0.3))
+                if k == 3:
+                    return R.Return(expr(names_now))
+                return R.Assign(ch.pick(list(params) or GLOBALS), expr(names_now))
+
+            used = 0
+            while used < budget:
+                names_now = names + locs
+                k = ch.choose(4, [4, 2, 2, 1])
+                if k == 0:
+                    out.append(simple(names_now, False))
+                    used += 1
+                elif k == 1:
+                    inner = [simple(names_now, False)]
+                    out.append(R.If(R.Bin(ch.pick(['>', '<']), R.Var(ch.pick(names_now)), env.num('int')), inner))
+                    used += 2
+                elif k == 2:
+                    inner = [simple(names_now, True)]
+                    if ch.flag(0.3):
+                        inner = [R.If(R.Bin('>', R.Var(ch.pick(names_now)), env.num('int')), inner)]
+                    out.append(R.Repeat('count', inner, n=N(value=ch.pick([1, 2]))))
+                    used += 2
+                else:
+                    inner = [R.Repeat('count', [simple(names_now, True)], n=N(value=2))]
+                    out.append(R.Repeat('count', inner, n=N(value=ch.pick([1, 2]))))
+                    used += 3
+            # show what the routine sees at the end
+            for v in list(params)[:2] + ['x']:
+                if v in names:
+                    out.append(R.Print(R.Var(v), ln=True))
+            return out
+
+        fparams = ch.pick(PARAMSETS)
+        routines['f'] = (fparams, True)
+        fbody = body(fparams, size, 'f')
+        fbody.append(R.Return(R.Bin('+', R.Var((list(fparams) + ['g'])[0]), N(value=1))))
+        stmts.append(R.RoutineDef('f', list(fparams), fbody))
+        callers = ['f']
+        if two_routines and ch.flag(0.6):
+            kparams = ch.pick([(), ('x',), ('q',), ('y',)])
+            routines['k'] = (kparams, True)
+            kbody = body(kparams, max(1, size - 1), 'k', callees=('f',))
+            c = R.Call('f', call_args('f', list(kparams) + GLOBALS, False))
+            kbody.insert(ch.choose(len(kbody) + 1), c)
+            kbody.append(R.Return(R.CallE('f', call_args('f', list(kparams) + GLOBALS, False))))
+            stmts.append(R.RoutineDef('k', list(kparams), kbody))
+            callers.append('k')
+        if recursion and ch.flag(0.5):
+            routines['rec'] = (('n',), True)
+            rb = [R.If(R.Bin('>', R.Var('n'), N(value=0)),
+                       [R.Print(R.Var('n'), ln=True),
+                        R.Assign('g', R.Bin('+', R.Var('g'), R.Var('n'))),
+                        R.Call('rec', [R.Bin('-', R.Var('n'), N(value=1))]),
+                        R.Print(R.Var('n'), ln=True)]),
+                  R.Return(R.Var('n'))]
+            stmts.append(R.RoutineDef('rec', ['n'], rb))
+            stmts.append(R.Call('rec', [env.num('count')]))
+        # main: show, call, show
+        show = [R.Print(R.Var(v), ln=True) for v in GLOBALS]
+        stmts += show
+        for _ in range(1 + ch.choose(2)):
+            c = ch.pick(callers)
+            args = call_args(c, GLOBALS, True)
+            style = ch.choose(3)
+            if style == 0:
+                stmts.append(R.Call(c, args))
+            elif style == 1:
+                stmts.append(R.Call(c, args, bracket=True))
+            else:
+                stmts.append(R.Print(R.CallE(c, args), ln=True))
+            stmts += [R.Print(R.Var(v), ln=True) for v in GLOBALS]
+        return stmts
+    return gen
+
+
+# ---------------------------------------------------------------- C04 -------
+POPULATIONS = {
+    'none': (),
+    'one': (('A', 'G1', 'L1', 'plain'),),
+    'two-shared': (('A', 'G1', 'L1', 'plain'), ('B', 'G1', 'L1', 'plain')),
+    'three': (('B', 'G1', 'L1', 'plain'), ('A', 'G1', 'L2', 'plain'), ('C', 'G2', 'L1', 'plain')),
+    'four': (('D', 'G2', 'L2', 'plain'), ('B', 'G1', 'L1', 'plain'), ('A', 'G1', 'L2', 'plain'),
+             ('C', 'G2', 'L1', 'plain')),
+}
+LOOP_FORMS = ['count', 'count_var', 'with', 'count_with', 'count_cycle', 'count_cycle0', 'while', 'forever',
+              'all', 'groups', 'locations', 'in_group', 'in_location', 'in_list', 'in_mixed',
+              'all_from', 'all_cycle', 'in_group_from', 'in_list_cycle', 'groups_from']
+LIGHT_FORMS = {'all', 'groups', 'locations', 'in_group', 'in_location', 'in_list', 'in_mixed', 'all_from',
+               'all_cycle', 'in_group_from', 'in_list_cycle', 'groups_from'}
+
+
+def make_loop(env, form, inner, level, brk=None):
+    """-> list of statements realising loop `form` whose body is
+    [prints of the loop variables] + inner (+ break at position brk: None|'first'|'last')."""
+    ch = env.ch
+    sfx = str(level)
+    v, L, cnt = 'v' + sfx, 'lt' + sfx, 'k' + sfx
+    pre, shows = [], []
+    small = 'count' if level == 0 else 'count2'
+
+    def body_with(shows):
+        b = list(shows) + list(inner)
+        if brk is not None:
+            # a break that fires after a symbolic number of passes
+            test = R.If(R.Bin('>=', R.Var(cnt), env.num('count2')), [R.Break()])
+            step = R.Assign(cnt, R.Bin('+', R.Var(cnt), N(value=1)))
+            b = ([test] + b if brk == 'first' else b + [test]) + [step]
+        return b
+    if brk is not None:
+        pre.append(R.Assign(cnt, N(value=0)))
+    if form == 'count':
+        return pre + [R.Repeat('count', body_with([R.Print(N(value=7), ln=True)]), n=env.num(small))]
+    if form == 'count_var':
+        nv = 'n' + sfx
+        pre.append(R.Assign(nv, env.num(small)))
+        body = body_with([R.Print(R.Var(nv), ln=True), R.Assign(nv, N(value=0))])
+        return pre + [R.Repeat('count', body, n=R.Var(nv))]
+    if form == 'with':
+        return pre + [R.Repeat('with', body_with([R.Print(R.Var(v), ln=True)]), var=v,
+                               a=env.num('int3'), b=env.num('int3'))]
+    if form == 'count_with':
+        return pre + [R.Repeat('count_with', body_with([R.Print(R.Var(v), ln=True)]), var=v,
+                               n=env.num(small), a=env.num('val'), b=env.num('val'))]
+    if form in ('count_cycle', 'count_cycle0'):
+        return pre + [R.Repeat('count_cycle', body_with([R.Print(R.Var(v), ln=True)]), var=v,
+                               n=env.num(small), start=env.num('val') if form == 'count_cycle' else None)]
+    if form == 'while':
+        wv = 'w' + sfx
+        pre.append(R.Assign(wv, env.num(small)))
+        body = body_with([R.Print(R.Var(wv), ln=True)]) + [R.Assign(wv, R.Bin('-', R.Var(wv), N(value=1)))]
+        return pre + [R.Repeat('while', body, cond=R.Bin('>', R.Var(wv), N(value=0)))]
+    if form == 'forever':
+        wv = 'w' + sfx
+        pre.append(R.Assign(wv, env.num(small)))
+        body = [R.If(R.Bin('<=', R.Var(wv), N(value=0)), [R.Break()])] + body_with([R.Print(R.Var(wv), ln=True)]) \
+            + [R.Assign(wv, R.Bin('-', R.Var(wv), N(value=1)))]
+        return pre + [R.Repeat('forever', body)]
+    # light iterations
+    shows = [R.Print(R.Var(L), ln=True)]
+    dist = None
+    kind = form
+    items = None
+    if form in ('all_from', 'in_group_from', 'groups_from'):
+        dist = ('from', v, env.num('val'), env.num('val'))
+    if form in ('all_cycle', 'in_list_cycle'):
+        dist = ('cycle', v, env.num('val') if ch.flag() else None)
+    if dist is not None:
+        shows.append(R.Print(R.Var(v), ln=True))
+    if form in ('all', 'all_from', 'all_cycle'):
+        kind = 'all'
+        shows.append(R.Action('on', [R.Operand('light', R.Var(L))]))
+    elif form in ('groups', 'groups_from'):
+        kind = 'groups'
+        shows.append(R.Action('on', [R.Operand('group', R.Var(L))]))
+    elif form == 'locations':
+        kind = 'locations'
+    else:
+        kind = 'in'
+        shows.append(R.Action('on', [R.Operand('light', R.Var(L))]))
+        if form in ('in_group', 'in_group_from'):
+            items = [('group', R.Str(ch.pick(['G1', 'G2', 'Nope'])))]
+        elif form == 'in_location':
+            items = [('location', R.Str(ch.pick(['L1', 'L2'])))]
+        elif form in ('in_list', 'in_list_cycle'):
+            items = [('light', R.Str(n)) for n in ch.pick([['B', 'A'], ['C'], ['A', 'C', 'B'], ['A', 'A']])]
+        else:
+            items = ch.pick([[('light', R.Str('C')), ('group', R.Str('G1'))],
+                             [('group', R.Str('G1')), ('location', R.Str('L1'))],
+                             [('location', R.Str('L2')), ('light', R.Str('A')), ('group', R.Str('G2'))]])
+    return pre + [R.Repeat(kind, body_with(shows), lvar=L, items=items, dist=dist)]
+
+
+def loop_program(forms=None, nest=True, in_routine=False):
+    def gen(ch):
+        env = Env(ch)
+        f0 = ch.pick(forms or LOOP_FORMS)
+        pop = ch.pick(sorted(POPULATIONS)) if f0 in LIGHT_FORMS else 'three'
+        stmts = []
+        if ch.flag(0.25) or f0 in ('count_cycle', 'count_cycle0', 'all_cycle', 'in_list_cycle') and ch.flag(0.5):
+            stmts.append(R.Units('raw'))
+        inner = []
+        brk0 = ch.pick([None, 'first', 'last'], [3, 1, 1])
+        if nest and ch.flag(0.6):
+            f1 = ch.pick(forms or LOOP_FORMS)
+            if f1 in LIGHT_FORMS and pop == 'three' and f0 not in LIGHT_FORMS:
+                pop = ch.pick(sorted(POPULATIONS))
+            brk1 = ch.pick([None, 'first', 'last'], [2, 2, 2])
+            inner = make_loop(env, f1, [], 1, brk1)
+        loop = make_loop(env, f0, inner, 0, brk0)
+        tail = [R.Print(N(value=99), ln=True)]
+        if in_routine and ch.flag(0.4):
+            stmts += [R.RoutineDef('lp', [], loop + tail), R.Call('lp', [])]
+        else:
+            stmts += loop + tail
+        return (pop, stmts)
+    return gen
